@@ -169,8 +169,16 @@ func (s *BadSmellListener) EnterFieldDeclaration(ctx *FieldDeclarationContext) {
 }
 
 func (s *BadSmellListener) EnterLocalVariableDeclaration(ctx *LocalVariableDeclarationContext) {
-	typ := ctx.GetChild(0).(antlr.ParseTree).GetText()
-	variableName := ctx.GetChild(1).GetChild(0).GetChild(0).(antlr.ParseTree).GetText()
+	// modifiers and annotations may precede the type: take type and name from the grammar accessors
+	if ctx.TypeType() == nil || ctx.VariableDeclarators() == nil {
+		return
+	}
+	typ := ctx.TypeType().GetText()
+	declarators := ctx.VariableDeclarators().(*VariableDeclaratorsContext).AllVariableDeclarator()
+	if len(declarators) == 0 {
+		return
+	}
+	variableName := declarators[0].(*VariableDeclaratorContext).VariableDeclaratorId().GetText()
 	localVars[variableName] = typ
 }
 
@@ -292,6 +300,9 @@ func countMethodIfSwitch(statement IBlockStatementContext, bsInfo *bs_domain.Fun
 }
 
 func (s *BadSmellListener) EnterAnnotation(ctx *AnnotationContext) {
+	if ctx.QualifiedName() == nil {
+		return
+	}
 	if currentClzType == "Class" && ctx.QualifiedName().GetText() == "Override" {
 		currentClassBs.OverrideSize++
 	}
